@@ -36,6 +36,7 @@ TAGS = {
     52: 'stepwise: peripheral compartments not added one at a time in increasing order',
     53: 'stepwise: an allowed path is missing or a path occurs twice',
     54: 'stepwise: candidate names not unique / not numbered in creation order',
+    55: 'reduced_stepwise: two candidates with the same features are both extended (no choose_best_model between them)',
     61: 'iivsearch: candidates are not exactly the non-empty eta subsets / block partitions (minus the base structure)',
     71: 'MFL: parse(stringify(parse(s))) differs from parse(s)',
     72: 'MFL: a + b does not denote the union of the expanded feature combinations',
@@ -236,14 +237,6 @@ def classify(ctx, spec, tags):
         else:
             ctx.violation(TAGS.get(t, str(t)), {'spec': spec, 'tags': sorted(tags), 'tag_meaning': TAGS.get(t, str(t))})
             status = 'violation'
-    if corr and status == 'ok' and (tags & set(M.GUARD_TAGS)):
-        # guard-false input on which the implementation satisfies the SPEC (no oracle tag) but no longer
-        # behaves like the faithful model of the defect: the known defect was repaired there
-        ctx.coverage['spec_holds_model_differs_on_guard_false'] = ctx.coverage.get('spec_holds_model_differs_on_guard_false', 0) + 1
-        if 'finding_behaviour_changed' not in ' '.join(ctx.notes):
-            ctx.notes.append('finding_behaviour_changed: implementation meets the specification on inputs where the model of a known defect does not '
-                             f'(first: {json.dumps(spec)[:200]})')
-        return 'fixed'
     if corr and status != 'violation':
         ctx.broken.append('correspondence C18 model vs implementation: ' + ', '.join(TAGS[t] for t in corr)
                           + ' on ' + json.dumps(spec)[:400])
@@ -328,7 +321,7 @@ def run(ctx):
     specs += M.gen_specs(ctx.rng, ctx.tier)
     # heavy cases first (balanced shards)
     kept, verdicts, infos = run_specs(ctx, specs, 'gen')
-    stats = {'ok': 0, 'known': 0, 'violation': 0, 'broken': 0, 'fixed': 0}
+    stats = {'ok': 0, 'known': 0, 'violation': 0, 'broken': 0}
     for spec, tags in zip(kept, verdicts):
         stats[classify(ctx, spec, tags)] += 1
     ctx.coverage['evaluations'] = sum(i.get('n_out', 1) for i in infos)
